@@ -90,6 +90,7 @@ type AttemptResult struct {
 	Causes                    []string // causes actually injected before Stream returned, in order
 	CauseStep                 int
 	CauseSeq                  int // global event sequence number when the first cause fired
+	CauseSeqSet               bool
 	ReturnStep                int
 	Hang                      bool
 	HangDump                  []libGoroutine
@@ -891,7 +892,7 @@ func (r *Run) runAttempt(idx int, plan AttemptPlan) bool {
 	fire := func(name string) {
 		if !causeFired {
 			att.CauseStep = r.steps
-			att.CauseSeq = r.seq
+			att.CauseSeq, att.CauseSeqSet = r.seq, true
 			lg := probeGoroutines()
 			for _, g := range lg {
 				if g.Role == "reader" && !r.connReading() {
